@@ -675,14 +675,32 @@ func madeWithLenOf(pk *packages.Package, fd *ast.FuncDecl, x, ranged ast.Expr) b
 // dischargeAssert: x.(T) without comma-ok.
 func dischargeAssert(p *Prog, ta *ssa.TypeAssert) (string, bool) {
 	v := resolve(ta.X)
+	// field Value of a container/list element
+	if ld, isL := isLoad(stripConv(v)); isL {
+		if fa, isFA := ld.(*ssa.FieldAddr); isFA {
+			if tn, f, _ := fieldOf(fa); tn == "Element" && f == "Value" {
+				return listHoldsOnly(p, ta)
+			}
+		}
+	}
+	if ex, isEx := v.(*ssa.Extract); isEx {
+		if c2, isC := ex.Tuple.(*ssa.Call); isC && ex.Index == 0 {
+			switch calleeFullName(c2.Common()) {
+			case "(*sync.Map).Load", "(*sync.Map).LoadOrStore", "(*sync.Map).LoadAndDelete", "(*sync.Map).Swap":
+				return syncMapHoldsOnly(p, ta)
+			}
+		}
+	}
 	call, ok := v.(*ssa.Call)
 	if !ok {
 		return "operand is " + describeValue(ta.X), false
 	}
 	com := call.Common()
 	name := calleeFullName(com)
-	if name == "(*container/list.List).Remove" || name == "(*container/list.Element).Value" {
-		// every element put into any list in the module has the asserted type
+	if name == "(*container/list.List).Remove" {
+		return listHoldsOnly(p, ta)
+	}
+	if false {
 		n, bad := 0, ""
 		for _, fn := range p.ModFuncs {
 			allInstrs(fn, func(in ssa.Instruction) {
@@ -852,4 +870,65 @@ func negateOp(op token.Token) token.Token {
 		return token.GTR
 	}
 	return op
+}
+
+
+// listHoldsOnly: every element put into any container/list in the module has the asserted type.
+func listHoldsOnly(p *Prog, ta *ssa.TypeAssert) (string, bool) {
+	n, bad := 0, ""
+	for _, fn := range p.ModFuncs {
+		allInstrs(fn, func(in ssa.Instruction) {
+			c, ok := in.(ssa.CallInstruction)
+			if !ok {
+				return
+			}
+			switch calleeFullName(c.Common()) {
+			case "(*container/list.List).PushBack", "(*container/list.List).PushFront":
+				n++
+				mi, ok := c.Common().Args[1].(*ssa.MakeInterface)
+				if !ok || !types.Identical(mi.X.Type(), ta.AssertedType) {
+					bad = "a value of another type is pushed at " + p.InstrPos(in)
+				}
+			case "(*container/list.List).InsertBefore", "(*container/list.List).InsertAfter", "(*container/list.List).PushBackList", "(*container/list.List).PushFrontList":
+				bad = "list insertion not analysed at " + p.InstrPos(in)
+			}
+		})
+	}
+	if bad == "" && n > 0 {
+		return fmt.Sprintf("all %d insertion(s) into container/list lists in the module push a %s", n, relType(ta.AssertedType)), true
+	}
+	if bad == "" {
+		bad = "no list insertion found"
+	}
+	return bad, false
+}
+
+// syncMapHoldsOnly: every value stored into any sync.Map in the module has the asserted type.
+func syncMapHoldsOnly(p *Prog, ta *ssa.TypeAssert) (string, bool) {
+	n, bad := 0, ""
+	for _, fn := range p.ModFuncs {
+		allInstrs(fn, func(in ssa.Instruction) {
+			c, ok := in.(ssa.CallInstruction)
+			if !ok {
+				return
+			}
+			switch calleeFullName(c.Common()) {
+			case "(*sync.Map).Store", "(*sync.Map).LoadOrStore", "(*sync.Map).Swap":
+				n++
+				mi, ok := c.Common().Args[2].(*ssa.MakeInterface)
+				if !ok || !types.Identical(mi.X.Type(), ta.AssertedType) {
+					bad = "a value of another type is stored at " + p.InstrPos(in)
+				}
+			case "(*sync.Map).CompareAndSwap":
+				bad = "CompareAndSwap not analysed at " + p.InstrPos(in)
+			}
+		})
+	}
+	if bad == "" && n > 0 {
+		return fmt.Sprintf("all %d store(s) into sync.Map values in the module store a %s", n, relType(ta.AssertedType)), true
+	}
+	if bad == "" {
+		bad = "no sync.Map store found"
+	}
+	return bad, false
 }
